@@ -188,14 +188,27 @@ Section CalcChunk.
 End CalcChunk.
 
 (* calcChunkSize for an explicit chunk size *)
-Lemma calc_explicit_spec k s e chunk nl one mc g md : s < e -> 1 <= chunk -> chunk <> kmax k -> e - s + chunk < 2 ^ 63 ->
+Lemma ceil_as_quot_plus a c : 0 <= a -> 1 <= c ->
+  a / c + (if negb (a mod c =? 0) then 1 else 0) = (a + c - 1) / c.
+Proof.
+  intros Ha Hc. pose proof (Z.div_mod a c ltac:(lia)) as DM. pose proof (Z.mod_pos_bound a c ltac:(lia)) as MB.
+  destruct (a mod c =? 0) eqn:E; [apply Z.eqb_eq in E | apply Z.eqb_neq in E]; cbn [negb].
+  - apply (Z.div_unique (a + c - 1) c (a / c + 0) (c - 1)); [left; lia | lia].
+  - apply (Z.div_unique (a + c - 1) c (a / c + 1) (a mod c - 1)); [left; lia | lia].
+Qed.
+
+Lemma calc_explicit_spec k s e chunk nl one mc g md : s < e -> 1 <= chunk -> chunk <> kmax k -> e - s < 2 ^ 63 ->
   m_calcChunkSize k s e chunk nl one mc g md = Some (chunk, (e - s + chunk - 1) / chunk).
 Proof.
   intros Hse Hc Hk Hfit. unfold m_calcChunkSize.
   replace (chunk =? 0) with false by (symmetry; apply Z.eqb_neq; lia). cbn [negb].
   replace (chunk =? kmax k) with false by (symmetry; apply Z.eqb_neq; lia).
-  rewrite range_size_id by lia. rewrite (W_id k (e - s + chunk)) by lia. rewrite W_id by lia.
-  rewrite quot_div_nonneg by lia. reflexivity.
+  rewrite range_size_id by lia. rewrite quot_div_nonneg, rem_mod_nonneg by lia.
+  assert (Q : 0 <= (e - s) / chunk <= e - s) by (split; [apply Z.div_pos; lia | apply Z.div_le_upper_bound; nia]).
+  rewrite (W_id k (if negb ((e - s) mod chunk =? 0) then 1 else 0)) by (destruct (negb ((e - s) mod chunk =? 0)); lia).
+  rewrite ceil_as_quot_plus by lia.
+  pose proof (ceil_div_bounds (e - s) chunk ltac:(lia) ltac:(lia)) as B. cbv zeta in B.
+  rewrite W_id by nia. reflexivity.
 Qed.
 
 (* adjustChunkSizing for an auto-chunked range that stays non-static with at least two threads *)
